@@ -180,6 +180,22 @@ theorem collect_eq_spec (m : Meta) (methods : List Method)
   rw [hc]
   simp [byNumber_eq_spec m.listing hnum]
 
+/-- non-vacuity of `collect_eq_spec`: a CSV log with a failed and a repeated entry, three data
+directories whose listing, alphabetical and numeric orders differ -/
+example :
+    let m : Meta := { listing := [⟨"10.d".toList, true⟩, ⟨"9.d".toList, true⟩, ⟨"100.d".toList, true⟩, ⟨"BatchLog.csv".toList, false⟩],
+                      xml := none, acq := none,
+                      csv := some [⟨1, "D:\\b\\100.d".toList, pass⟩, ⟨2, "D:\\b\\9.d".toList, "Fail".toList⟩,
+                                   ⟨3, "D:\\b\\9.d".toList, pass⟩, ⟨4, "D:\\b\\100.d".toList, pass⟩] }
+    (∀ rows, m.csv = some rows → ∀ r ∈ rows, (r.result.take 4 = pass → r.result = pass) ∧ r.file.length ≤ 264) ∧
+    (∀ a ∈ dataDirs m.listing, ∀ b ∈ dataDirs m.listing, digitsVal a = digitsVal b → a = b) ∧
+    collect m true [.batchCsv, .alphabetical] = some ["9.d".toList, "100.d".toList] := by
+  refine ⟨?_, by decide, by decide⟩
+  intro rows h
+  simp only [Option.some.injEq] at h
+  subst h
+  decide
+
 /-! ## binary decoding -/
 
 /-- Every scan `r < R` of every mass `j < k` — for every `R ≥ 1`, `k ≥ 1`, so `k = 1` and `k = 2`
@@ -347,6 +363,10 @@ theorem massInfo_spec (xs : List XMass) (xadd : Option (Bool × List XAdd))
       obtain ⟨msms, rows⟩ := p
       simp only
       cases List.find? (fun a => decide (a.index = m.id)) rows.reverse <;> rfl
+
+example : (massInfo [⟨"P".toList, 1, 1⟩, ⟨"Eu".toList, 2, 1⟩]
+      (some (true, [⟨2, 153, 153⟩, ⟨1, 31, 47⟩]))).map (fun t => t.map (·.str))
+    = some ["P31->47".toList, "Eu153->153".toList] := by decide
 
 /-- The element names `load_csv` takes from AcqMethod.xml are the names of the batch's own mass
 table: whatever the document order of the `IcpmsElement` entries, if they are the mass table's
